@@ -84,6 +84,41 @@ theorem pairwiseDisjoint_spec : ∀ (c : List (List String)), pairwiseDisjoint c
     rw [this] at hm
     simp at hm
 
+/-- what a returned cover satisfies, whatever `max` chose (the property theorem `cover_spec`) -/
+theorem weightedCover_spec (es0 : List (List String)) (u : List String) (c : List (List String))
+    (h : some c ∈ weightedCover es0 u) :
+    (∀ p ∈ c, p ∈ es0) ∧
+    (c.Pairwise fun a b => ∀ x, ¬ (x ∈ a ∧ x ∈ b)) ∧
+    (∀ x ∈ u, ∃ p ∈ c, x ∈ p) ∧
+    (∀ e ∈ es0, sameS e u = false → ∀ x ∈ e, ∃ p ∈ c, (∀ y ∈ p, y ∈ e) ∧ x ∈ p) := by
+  unfold weightedCover at h
+  simp only at h
+  by_cases hes : (es0.filter fun s => !sameS s u).isEmpty = true
+  · simp [hes] at h
+  · simp only [hes, Bool.false_eq_true, if_false, List.mem_map] at h
+    obtain ⟨r, hr, hb⟩ := h
+    cases r with
+    | none => simp at hb
+    | some c' =>
+      simp only [Option.bind_some] at hb
+      by_cases hck : checkCover (es0.filter fun s => !sameS s u) c' = true
+      · simp only [hck, if_true, Option.some.injEq] at hb
+        subst hb
+        obtain ⟨g1, g2, _⟩ := greedy_spec _ _ u [] c' hr
+        simp only [checkCover, Bool.and_eq_true, List.all_eq_true] at hck
+        refine ⟨?_, pairwiseDisjoint_spec c' hck.2, g2, ?_⟩
+        · intro p hp
+          rcases g1 p hp with h | h
+          · simp at h
+          · exact (List.mem_filter.mp h).1
+        · intro e he hne x hx
+          have hmem : e ∈ es0.filter fun s => !sameS s u := List.mem_filter.mpr ⟨he, by simp [hne]⟩
+          have hemp := hck.1 e hmem
+          rcases reduceBy_spec e c' e (fun y hy => hy) x hx with h | ⟨p, hp, h1, h2⟩
+          · rw [List.isEmpty_iff.mp hemp] at h; simp at h
+          · exact ⟨p, hp, subsetS_iff.mp h1, h2⟩
+      · simp [hck] at hb
+
 /-! ### `norm` is canonical: strictly sorted, same members -/
 
 theorem mem_insertS (x y : String) : ∀ (l : List String), y ∈ insertS x l ↔ y = x ∨ y ∈ l
